@@ -1,6 +1,6 @@
 (* C05 - the model's per-step observation records satisfy the (proved part of the) oracle's checks;
    in-effect characterisation; refutation witnesses of the recorded findings. *)
-From Icv Require Import Base.Tac Ck.CkState Ck.CkFull Ck.CkDtDefs Ck.CkDtProofs.
+From Icv Require Import Base.Tac Ck.CkState Ck.CkFull Ck.CkDtDefs Ck.CkDtProofs Ck.CkDtChain.
 Local Open Scope Z_scope.
 Arguments chain_fuel : simpl never.
 
@@ -615,7 +615,7 @@ Proof.
   - (* start timer *)
     unfold s, c5_sig_loststart. cbn [c5_mk c5_op c5_pre c5_now full_step].
     split.
-    + intros Hsig. rewrite orb_false_r in Hsig.
+    + intros Hsig.
       destruct (start_count_timer now f Hnd Hs He (chained_fixed_false _ Hsig)) as (Hc & _).
       apply start_check_of_count with (U (f_dts f) - U (f_dts (fst (do_dt_start_timer now f)))).
       * exact Hc.
@@ -757,6 +757,102 @@ Proof.
     cbn [fst snd set_paused f_dts]. rewrite newly_incl; [reflexivity|exact Hnd|apply incl_refl].
 Qed.
 
+
+(* ------------------------------------------------------------------ check 12: chained triggers at every level *)
+Lemma add_trigger_same p c a b : SameChain a b -> SameChain (add_trigger p c a) (add_trigger p c b).
+Proof.
+  induction 1 as [|x y l l' [H1 H2] _ IH]; cbn; constructor; [|exact IH].
+  rewrite H1, H2. destruct ((d_id x =? p) && negb (existsb (Z.eqb c) (d_triggers x))); cbn; rewrite ?H1, ?H2; split; reflexivity.
+Qed.
+
+(* creation order is an invariant of every operation *)
+Lemma step_Ord c now prev f o :
+  DtInv now f -> Ord (f_dts f) -> c5_wf_step prev (c5_mk c now f o) = true -> Ord (f_dts (fst (full_step c now f o))).
+Proof.
+  intros [Hnd Hlsc] Hord Hwf. unfold c5_wf_step in Hwf. cbn [c5_mk c5_now c5_op c5_pre] in Hwf.
+  apply andb_prop in Hwf. destruct Hwf as [Hwf Hop]. apply andb_prop in Hwf. destruct Hwf as [Hwf Hsc].
+  destruct o; cbn [c5_in_scope] in Hsc; try discriminate; cbn [full_step].
+  - destruct (rejected now (f_st f) r) eqn:Hrej.
+    + unfold do_result. rewrite Hrej. exact Hord.
+    + destruct (do_result_shape c now r f Hrej) as (Hd & _ & _). cbn zeta in Hd. rewrite Hd.
+      destruct (negb (is_ok (c_kind (fc_base c)) (r_state r))); [|exact Hord].
+      apply (OrdF_same [] (f_dts f)); [|exact Hord]. eapply Rl_SameChain. apply trigger_all_Rl. exact Hnd.
+  - pose proof (get_ack_facts now f) as (A1 & _). destruct (get_ack now f) as [[a f'] o']. cbn [fst snd] in *.
+    rewrite A1. exact Hord.
+  - apply andb_prop in Hop. destruct Hop as [Hfr Hop2]. apply andb_prop in Hop2. destruct Hop2 as [_ Hself].
+    apply negb_true_iff in Hfr. apply has_false_notin in Hfr.
+    destruct (do_dt_add_Rwl c now id fixed start end_ duration trig_by parent owned f Hnd Hfr) as (ds2 & HR & Hd & _).
+    rewrite Hd. set (dnew := new_dt now id fixed start end_ duration parent owned) in *.
+    destruct (trig_by =? 0).
+    + apply (OrdF_same [] (f_dts f ++ [dnew])); [eapply Rwl_SameChain; exact HR|]. apply OrdF_snoc; [exact Hord|reflexivity].
+    + apply (OrdF_same [] (add_trigger trig_by id (f_dts f ++ [dnew]))).
+      * apply add_trigger_same. eapply Rwl_SameChain. exact HR.
+      * apply (OrdF_add [] (f_dts f) dnew trig_by Hord eq_refl); [intros []|exact Hfr|cbn; lia].
+  - destruct (do_dt_remove_filter now id children r f) as (g & Hg & _). rewrite Hg. apply OrdF_filter. exact Hord.
+  - apply (OrdF_same [] (f_dts f)); [|exact Hord]. eapply Rwl_SameChain. apply do_dt_start_timer_Rwl. exact Hnd.
+  - destruct (do_dt_cleanup_filter now id f) as (g & Hg & _). rewrite Hg. apply OrdF_filter. exact Hord.
+  - exact Hord.
+Qed.
+
+Lemma step_check_chain c now prev f o :
+  DtInv2 now f -> Ord (f_dts f) -> c5_wf_step prev (c5_mk c now f o) = true -> c5_chk_chain (c5_mk c now f o) = true.
+Proof.
+  intros ([Hnd Hlsc] & Hs & He) Hord Hwf. unfold c5_chk_chain.
+  unfold c5_wf_step in Hwf. cbn [c5_mk c5_now c5_op c5_pre] in Hwf.
+  apply andb_prop in Hwf. destruct Hwf as [Hwf Hop]. apply andb_prop in Hwf. destruct Hwf as [Hwf Hsc].
+  destruct o; cbn [c5_in_scope] in Hsc; try discriminate; cbn [c5_mk c5_op c5_pre c5_post c5_now full_step]; try reflexivity.
+  - (* result *)
+    destruct (rejected now (f_st f) r) eqn:Hrej.
+    + unfold do_result. rewrite Hrej. cbn [fst]. rewrite newly_incl; [reflexivity|exact Hnd|apply incl_refl].
+    + destruct (do_result_shape c now r f Hrej) as (Hd & _ & _). cbn zeta in Hd. rewrite Hd.
+      destruct (negb (is_ok (c_kind (fc_base c)) (r_state r))); cbn [fst];
+        [|rewrite newly_incl; [reflexivity|exact Hnd|apply incl_refl]].
+      pose proof (trigger_all_Rl now (f_paused f) (r_end r) (f_dts f) Hnd) as HR.
+      apply forallb_forall. intros d' Hd'. unfold c5_newly in Hd'. apply filter_In in Hd'. destruct Hd' as [Hd' Hp].
+      apply andb_prop in Hp. destruct Hp as [Hp1 Hp2].
+      destruct (find_dt (d_id d') (f_dts f)) as [x|] eqn:Fx; [|reflexivity].
+      (* d' carries execution_end *)
+      assert (d_trigger d' = r_end r) as Ht.
+      { destruct (Rl_in _ _ _ _ _ HR Hd') as (x0 & Hx0 & HR0).
+        destruct HR0 as [->|(_ & _ & ->)]; [|reflexivity]. exfalso.
+        unfold c5_trig_of in Hp2. rewrite (find_dt_nodup _ x0 Hnd Hx0) in Hp2. lia. }
+      apply forallb_forall. intros cid Hcid. destruct (find_dt cid (f_dts f)) as [cc|] eqn:Fc; [|reflexivity].
+      destruct ((d_trigger cc =? 0) && c5_inwin now cc) eqn:E; [|reflexivity].
+      apply andb_prop in E. destruct E as [E1 E2]. destruct (find_dt_some _ _ _ Fc) as [Hcc Hidc].
+      pose proof (trigger_all_complete now (f_paused f) (r_end r) (f_dts f) cc Hnd Hcc ltac:(lia) E2) as Fpost.
+      unfold c5_trig_of. rewrite <- Hidc, Fpost. cbn [d_trigger set_trig]. rewrite Ht.
+      apply andb_true_intro. split; [apply negb_true_iff; lia|apply Z.eqb_refl].
+  - (* ack read *)
+    pose proof (get_ack_facts now f) as (A1 & _). destruct (get_ack now f) as [[a f'] o']. cbn [fst snd] in *.
+    rewrite A1, newly_incl; [reflexivity|exact Hnd|apply incl_refl].
+  - (* remove *)
+    destruct (do_dt_remove_filter now id children r f) as (g & Hg & _).
+    rewrite Hg, newly_incl; [reflexivity|exact Hnd|]. intros x Hx. apply filter_In in Hx. tauto.
+  - (* start timer *)
+    pose proof (start_timer_closed now f Hnd Hord He) as HC.
+    apply forallb_forall. intros d' Hd'. unfold c5_newly in Hd'. apply filter_In in Hd'. destruct Hd' as [Hd' Hp].
+    apply andb_prop in Hp. destruct Hp as [Hp1 Hp2].
+    destruct (find_dt (d_id d') (f_dts f)) as [x|] eqn:Fx; [|reflexivity].
+    destruct (find_dt_some _ _ _ Fx) as [Hx Hidx].
+    unfold c5_trig_of in Hp2. rewrite Fx in Hp2.
+    apply forallb_forall. intros cid Hcid. destruct (find_dt cid (f_dts f)) as [cc|] eqn:Fc; [|reflexivity].
+    destruct ((d_trigger cc =? 0) && c5_inwin now cc) eqn:E; [|reflexivity].
+    apply andb_prop in E. destruct E as [E1 E2]. rewrite andb_true_r. apply negb_true_iff. apply Z.eqb_neq.
+    apply (HC x d' cid cc Hx Hd'); try assumption; lia.
+  - (* cleanup *)
+    destruct (do_dt_cleanup_filter now id f) as (g & Hg & _).
+    rewrite Hg, newly_incl; [reflexivity|exact Hnd|]. intros x Hx. apply filter_In in Hx. tauto.
+  - (* pause *)
+    cbn [fst set_paused f_dts]. rewrite newly_incl; [reflexivity|exact Hnd|apply incl_refl].
+Qed.
+
+(* the invariant of the run theorems: DtInv2 plus creation order *)
+Definition DtInv3 (now : Z) (f : full) : Prop := DtInv2 now f /\ Ord (f_dts f).
+Lemma DtInv3_later now now' f : now <= now' -> DtInv3 now f -> DtInv3 now' f.
+Proof. intros H [A B]. split; [eapply DtInv2_later; eassumption|exact B]. Qed.
+Lemma DtInv3_init now : 0 <= now -> DtInv3 now init_full.
+Proof. intros H. split; [apply DtInv2_init; exact H|exact I]. Qed.
+
 (* ------------------------------------------------------------------ all proved checks along a run *)
 
 Lemma same_static_entry a b : c5_same_static a b = true -> d_entry b = d_entry a.
@@ -781,10 +877,10 @@ Proof.
     destruct o; cbn [added_by] in Hd; try destruct Hd as [<-|[]]; try destruct Hd. cbn. lia.
 Qed.
 
-(* every check of the oracle except 12 (chains beyond the directly chained downtimes) *)
+(* every check of the base oracle *)
 Definition c5_step_all (k : kind) (s : c5_ostep) : bool :=
   c5_chk_mono s && c5_chk_nolate s && c5_chk_removed s && c5_chk_end s && c5_chk_owned s && c5_chk_cleanup s
-  && c5_chk_result k s && c5_chk_add s && c5_chk_start s && c5_chk_trigev s && c5_chk_depth s.
+  && c5_chk_result k s && c5_chk_add s && c5_chk_start s && c5_chk_trigev s && c5_chk_depth s && c5_chk_chain s.
 
 (* none of the recorded findings' signatures along the run *)
 Fixpoint c5_clean_run (c : fcfg) (f : full) (h : list (Z * op)) : bool :=
@@ -795,7 +891,7 @@ Fixpoint c5_clean_run (c : fcfg) (f : full) (h : list (Z * op)) : bool :=
   end.
 
 Theorem model_trace_all_checks c : forall h prev f,
-  DtInv2 prev f -> c5_wf_run c prev f h = true -> c5_clean_run c f h = true ->
+  DtInv3 prev f -> c5_wf_run c prev f h = true -> c5_clean_run c f h = true ->
   Forall (fun s => c5_step_all (c_kind (fc_base c)) s = true) (c5_model_trace c f h).
 Proof.
   induction h as [|[now o] h IH]; intros prev f Hinv Hwf Hcl; cbn [c5_model_trace]; [constructor|].
@@ -804,20 +900,22 @@ Proof.
   apply negb_true_iff in Hsig. unfold c5_sig_any in Hsig.
   pose proof Hsig as S2.
   pose proof (wf_prev_le _ _ _ _ _ Hw) as Hle.
-  pose proof (DtInv2_later _ _ _ Hle Hinv) as Hinv'. pose proof Hinv' as (Hi & _ & _).
+  pose proof (DtInv3_later _ _ _ Hle Hinv) as [Hinv' Hord]. pose proof Hinv' as (Hi & _ & _).
   constructor.
   - unfold c5_step_all.
     destruct (step_checks_mono_nolate c now prev f o Hi Hw) as [H1 H2].
     destruct (step_checks_removal c now prev f o Hi Hw) as (H3 & H4 & H5 & H6). cbn zeta in H3, H4, H5, H6.
     destruct (step_check_start_inv c now prev f o Hinv' Hw) as (H9 & _). cbn zeta in H9.
     rewrite H1, H2, H3, H4, H5, H6, (step_check_result c now prev f o Hi Hw),
-      (step_check_add c now prev f o Hi Hw), (H9 S2), (step_check_trigev c now prev f o Hi Hw), step_check_depth. reflexivity.
-  - apply IH with now; [|exact Hrest|exact Hclr]. apply (step_DtInv2 c now prev f o Hinv' Hw).
+      (step_check_add c now prev f o Hi Hw), (H9 S2), (step_check_trigev c now prev f o Hi Hw), step_check_depth,
+      (step_check_chain c now prev f o Hinv' Hord Hw). reflexivity.
+  - apply IH with now; [|exact Hrest|exact Hclr].
+    split; [apply (step_DtInv2 c now prev f o Hinv' Hw)|apply (step_Ord c now prev f o Hi Hord Hw)].
 Qed.
 
 Lemma clean_run_premises :
-  DtInv2 0 init_full /\ c5_wf_run wit_cfg 0 init_full wit_clean = true /\ c5_clean_run wit_cfg init_full wit_clean = true.
-Proof. split; [apply DtInv2_init; lia|]. split; vm_compute; reflexivity. Qed.
+  DtInv3 0 init_full /\ c5_wf_run wit_cfg 0 init_full wit_clean = true /\ c5_clean_run wit_cfg init_full wit_clean = true.
+Proof. split; [apply DtInv3_init; lia|]. split; vm_compute; reflexivity. Qed.
 
 Lemma start_end_once_step c now prev f o :
   DtInv2 now f -> c5_wf_step prev (c5_mk c now f o) = true ->
